@@ -43,7 +43,7 @@ def gen_structured(rng, vocab):
             segs.append(hx_seg("T", t)); src += t
         elif r < 0.7:
             # (names may contain full-width ASCII and ideographic spaces: a word is the text as written, matched as written)
-            name = rng.choice(["どー", "あ", "メロ", "x1", "ドレ", rng.choice(names) + "ー", rng.choice(names), "サビ１", "Ｖ", "メロ　Ａ", "ａｂ", "x１"])
+            name = rng.choice(["どー", "あ", "メロ", "x1", "ドレ", rng.choice(names) + "ー", rng.choice(names), "サビ１", "Ｖ", "メロ　Ａ", "ａｂ", "x１", "𝄞", "𝄞メロ", "x😀", "𠮷野"])      # (… and characters beyond the basic plane: a word is counted in characters)
             value = rng.choice(["c", "d8", "[2 e]", "o4", "", "l8 c d", "{v}", "c\nd", "\ne\n\n"])      # a definition may span lines
             if "{" in name or "}" in name: continue
             form = rng.choice(["~{%s}={%s}", "~{%s} = {%s}", "～{%s}={%s}", "~ {%s}{%s}"])
